@@ -12,7 +12,7 @@ From Coq Require Import QArith ZArith List Permutation.
 From FL Require Import Num ListX Thresholder Thresholder_proofs.
 From FL Require Tradeoff Hull Interp ThreshOpt ThreshOpt_proofs ThreshOptSrc Saddle SaddleFit.
 From FL Require ThresholderBridge ThresholderBridge_proofs.
-From FLGen Require Gen_thresholder Gen_threshopt Gen_egconst.
+From FLGen Require Gen_thresholder Gen_threshopt Gen_egconst Gen_egweights.
 Import ListNotations.
 Open Scope Q_scope.
 
@@ -254,18 +254,19 @@ Proof. exact BP.monotone_for_fitted_models_without_flip. Qed.
 Print Assumptions C10_monotone_for_fitted_models_without_flip.
 
 (* ---- ExponentiatedGradient ---- *)
-(* what one iteration appends to Qs (regenerated EG/LP choice), and weights_ after fit: Qs[best_iter_]
-   (regenerated selection, _PRECISION) with a 0.0 entry added for every predictor id not in its index *)
-Definition iter_pair_src (it : B.eg_iter) : weights * Q :=
-  GE.keep_src (B.q_eg (B.it_hs it)) (B.it_gap it)
-              (match B.it_lp it with Some xg => Some (B.q_lp (fst xg), snd xg) | None => None end).
+(* weights_ after fit, assembled from the REGENERATED pieces: Qsum bookkeeping and Q_EG (Gen_egweights), what one
+   iteration appends to Qs (EG/LP choice, Gen_egconst), Qs[best_iter_] (selection with _PRECISION, Gen_egconst),
+   and the entry added for every predictor id not in its index (Gen_egweights) *)
+Module GW := Gen_egweights.
 Definition eg_fit_weights_src (n : nat) (its : list B.eg_iter) : weights :=
-  B.pad_zero n (SaddleFit.ret_weights
-                  (GE.returned_src ([] : weights) (map snd (map iter_pair_src its)) (map fst (map iter_pair_src its)))).
+  B.eg_fit_weights_gen GW.qsum_new GW.qsum_step GW.q_eg_values_src GW.pad_value
+                       (@GE.keep_src weights) (@GE.returned_src weights) n its.
 
+(* ... and it is the definition the theorems below are proved about: Qsum bookkeeping, Q_EG = Qsum / Qsum.sum(),
+   the padding value (t_egweights), EG/LP choice, best_iter_ and _PRECISION (t_egconst) as in the model *)
 Theorem C10_eg_fit_src_is_model : forall n its,
   eg_fit_weights_src n its = B.eg_fit_weights GE.precision n its.
-Proof. exact (fun _ _ => eq_refl). Qed.
+Proof. exact (BP.eg_fit_weights_gen_model GE.precision). Qed.
 Print Assumptions C10_eg_fit_src_is_model.
 
 (* weights_ (either branch: normalised counts Qsum / Qsum.sum() -- C08 weights_probability -- or an answer of
@@ -280,12 +281,7 @@ Theorem C10_eg_weights_probability_for_fitted_models : forall n its, its <> [] -
   NoDup (map fst (eg_fit_weights_src n its)) /\
   (forall t, (t < n)%nat -> In t (map fst (eg_fit_weights_src n its))).
 Proof.
-  exact (fun n its Hne Hok =>
-    let P := Qle_bool_imp_le 0 GE.precision eq_refl in
-    conj (proj1 (BP.eg_fit_weights_probability GE.precision n its P Hne Hok))
-   (conj (proj2 (BP.eg_fit_weights_probability GE.precision n its P Hne Hok))
-   (conj (BP.eg_fit_weights_nodup GE.precision n its P Hne)
-         (fun t Ht => BP.pad_zero_cover n _ t Ht)))).
+  exact (fun n its => BP.eg_weights_probability_std GE.precision n its (Qle_bool_imp_le 0 GE.precision eq_refl)).
 Qed.
 Print Assumptions C10_eg_weights_probability_for_fitted_models.
 
@@ -299,8 +295,7 @@ Theorem C10_pmf_eg_unit_for_fitted_models : forall n its outs, its <> [] ->
   fst (pmf_cols (G.pmf_eg_src W outs)) + snd (pmf_cols (G.pmf_eg_src W outs)) == 1 /\
   G.pmf_eg_src W outs == qsum (map (fun tw => snd tw * nth (fst tw) outs 0) W).
 Proof.
-  exact (fun n its outs => BP.pmf_eg_unit_for_fitted_models GE.precision n its outs
-                             (Qle_bool_imp_le 0 GE.precision eq_refl)).
+  exact (fun n its outs => BP.pmf_eg_unit_std GE.precision n its outs (Qle_bool_imp_le 0 GE.precision eq_refl)).
 Qed.
 Print Assumptions C10_pmf_eg_unit_for_fitted_models.
 
